@@ -86,13 +86,13 @@ class Session:
         return left, buf
 
 
-def authed_session(server=None, seg=None, debug=None, **server_kw):
+def authed_session(server=None, seg=None, debug=None, starttls=False, **server_kw):
     """Session with a connected + authenticated client (PLAIN), or None."""
     if server is None:
         server_kw.setdefault("users", {b"user": b"pw"})
         server = ms.Server(**server_kw)
     s = Session(server, seg, debug=debug)
-    r = s.connect("user", "pw")
+    r = s.connect("user", "pw", starttls=True) if starttls else s.connect("user", "pw")
     return s, r
 
 
